@@ -129,6 +129,10 @@ def register(R):
                 (len(failed) == 1 and len(se) == 1 and len(wait) == 1 and len(ann) == 1
                  and se[0].extra['env']['exception'] is failed[0].extra['raised']
                  and index_of(tr, failed[0]) < index_of(tr, se[0]) < index_of(tr, wait[0]) < index_of(tr, ann[0]))),
+            # ... and recorded WITHOUT override: a cancellation or a part failure recorded earlier stays the reported outcome
+            'submission_failure_never_overrides_an_earlier_outcome': (B(all(
+                s.extra['env'].get('override') in (False, None) or (isinstance(s.extra['env'].get('override'), tuple) and s.extra['env']['override'][0] == '$default')
+                for s in se)), ['C17', 'C07', 'C03']),
             'submit_only_after_both_transitions': B(all(
                 len(q) == 1 and len(r) == 1 and q[0].extra.get('raised') is None and r[0].extra.get('raised') is None
                 and index_of(tr, q[0]) < index_of(tr, r[0]) < index_of(tr, s) for s in sub)),
@@ -141,7 +145,7 @@ def register(R):
         return out
 
     R.contract(
-        f'{T}:SubmissionTask._main', props=['C03', 'C04', 'C07', 'C08'],
+        f'{T}:SubmissionTask._main', props=['C03', 'C04', 'C07', 'C08', 'C17'],
         params=dict(transfer_future=ObjT(f'{F}:TransferFuture')),
         checks=sub_checks, raises={}, loops={0: trivial_loop()},
     )
